@@ -252,6 +252,9 @@ class Ctx:
                 if why.startswith("P:"):
                     _, pid, what = why.split(":", 2)
                     if pid == self.pid:
+                        if len(self.violations) >= 25:       # enough replay files; keep counting
+                            self.violations.append(dict(what=what, replay=None))
+                            continue
                         rep = describe(b["l"], f, why) if describe else dict(file=os.path.basename(f), line=b["l"], event=nth_line(f, b["l"]))
                         self.violation(what, rep)
                     else:
